@@ -85,54 +85,24 @@ Theorem C05_ReadBytes_refines : forall d, wf d -> relr (readBytes d) (s_readByte
 Proof. exact readBytes_refines. Qed.
 Print Assumptions C05_ReadBytes_refines.
 
-(* ---- readStringAsBytes ---- *)
+(* ---- readStringAsBytes (as repaired in /repo commit 8eb4ed7) ---- *)
 
-(* REFUTED (1): a 3-byte character delivered by the reader in three reads makes the slow
-   path slice dec.buf[head:tail] with head > tail (Go: panic "slice bounds out of range
-   [2:1]"), while the same bytes decode from a contiguous slice. *)
-Theorem C05_readStringAsBytes_refuted :
-  exists cap chunks,
-    readStringAsSafeBytes 1 (reader_mode cap chunks) = Panic PStrWindow /\
-    readStringAsSafeBytes 1 (bytes_mode (concat chunks)) =
-      Ok (Some euro, mk (concat chunks) 3 4 [] false None).
-Proof. exact str_split3_panics. Qed.
-Print Assumptions C05_readStringAsBytes_refuted.
-
-(* REFUTED (2): a 3-byte character that ends the input, split by the reader, is returned
-   with Error = io.EOF; the contiguous run (fast path) returns it without error.  Every
-   refill was long enough here (str_why = 3, not 2): a second, independent defect. *)
-Theorem C05_readStringAsBytes_eof_refuted :
-  exists cap chunks d1 d2,
-    readStringAsSafeBytes 1 (reader_mode cap chunks) = Ok (Some euro, d1) /\
-    readStringAsSafeBytes 1 (bytes_mode (concat chunks)) = Ok (Some euro, d2) /\
-    err d1 = Some EEOF /\ err d2 = None /\ remaining d1 = [] /\ remaining d2 = [] /\
-    str_why 1 (reader_mode cap chunks) = 3.
-Proof. exact str_end_eof_differs. Qed.
-Print Assumptions C05_readStringAsBytes_eof_refuted.
-
-(* PARTIAL: under the guard
-     - the bytes are a prefix-closed well-formed string for n units (acceptable lead bytes,
-       no 4-byte character when one unit is left) -- true of encoder output and truncations;
-     - fast path, or: every refill that happens inside a character brings the rest of that
-       character (refill_ok), and the string does not end exactly where the input ends
-   readStringAsBytes returns the string, leaves the rest, and sets EOF iff the input ends
-   early -- for every chunking, every capacity, in reader mode and in slice mode alike. *)
-Theorem C05_readStringAsBytes_partial : forall n d, wf d -> str_guard n d = true ->
+(* For every chunking and every capacity, in reader mode and in slice mode alike,
+   readStringAsBytes returns the string of n UTF-16 units, leaves the rest, and sets EOF
+   exactly when the input ends before the string does.  The only premise, [str_ok], is a
+   condition on the BYTES (never on how they are delivered): every lead byte is one
+   checkUTF8String accepts and no 4-byte character stands where one unit is left -- true of
+   every encoder output and of every truncation of one; malformed strings are outside the
+   property's quantifier. *)
+Theorem C05_readStringAsBytes_refines : forall n d, wf d -> str_ok n (remaining d) = true ->
   rel (readStringAsSafeBytes n d) (s_str n (abs d)).
 Proof. exact str_refines. Qed.
-Print Assumptions C05_readStringAsBytes_partial.
+Print Assumptions C05_readStringAsBytes_refines.
 
-Theorem C05_ReadStringAsBytes_partial : forall d, wf d -> cmd_guard CReadStringAsBytes d = true ->
+Theorem C05_ReadStringAsBytes_refines : forall d, wf d -> cmd_guard CReadStringAsBytes d = true ->
   rel (readStringAsBytesTop d) (s_readStringAsBytesTop (abs d)).
 Proof. exact readStringAsBytesTop_refines. Qed.
-Print Assumptions C05_ReadStringAsBytes_partial.
-
-(* the guard is exact on its refill part: whenever the input is well formed and the slow
-   path meets a refill that is too short, the model (and the Go code) panics *)
-Theorem C05_readStringAsBytes_short_refill_panics : forall n d, wf d -> str_why n d = 2 ->
-  exists site, readStringAsSafeBytes n d = Panic site.
-Proof. exact str_short_refill_panics. Qed.
-Print Assumptions C05_readStringAsBytes_short_refill_panics.
+Print Assumptions C05_ReadStringAsBytes_refines.
 
 (* ---- every decoder written over the primitives ---- *)
 
@@ -141,17 +111,18 @@ Theorem C05_exec_refines : forall c d, wf d -> cmd_guard c d = true ->
 Proof. exact exec_refines. Qed.
 Print Assumptions C05_exec_refines.
 
-(* programs whose next call may depend on every value returned so far *)
-Theorem C05_run_refines : forall p d, wf d -> guarded p d ->
+(* programs whose next call may depend on every value returned so far; [s_guarded p s]:
+   wherever p reads a string from the contiguous bytes s, that string is well formed *)
+Theorem C05_run_refines : forall p d, wf d -> s_guarded p (abs d) ->
   obs_run (run p d) = obs_srun (s_run p (abs d)) /\ snd (obs_run (run p d)) <> None.
 Proof. exact run_refines. Qed.
 Print Assumptions C05_run_refines.
 
 (* same values, same error, same rest of the stream from any fragmenting reader with any
    buffer capacity as from the contiguous slice; and the run never exhausts its fuel.
-   [guarded] only constrains the string-reading calls (the _partial guard above). *)
+   The premise speaks about the bytes only, not about the fragmentation. *)
 Theorem C05_fragmentation_independent : forall p cap chunks, 1 <= cap ->
-  guarded p (reader_mode cap chunks) -> guarded p (bytes_mode (concat chunks)) ->
+  s_guarded p (concat chunks, None) ->
   obs_run (run p (reader_mode cap chunks)) = obs_run (run p (bytes_mode (concat chunks))) /\
   snd (obs_run (run p (reader_mode cap chunks))) <> None.
 Proof. exact fragmentation_independent. Qed.
@@ -199,18 +170,45 @@ Proof.
   destruct x; repeat (constructor; [reflexivity|intros]); constructor.
 Qed.
 
-(* the guard is met by ordinary splits of ordinary strings: "s"-less body  2"ß€"  read 3+2+2 *)
+(* the premise is met by ordinary strings, and the repaired code handles a character
+   delivered one byte at a time:  2"ß€"  read 1+1+1+1+1+1+1+1 through a 2-byte buffer *)
+Example one_byte_reads : list (list byte) :=
+  [b [50]; b [34]; b [195]; []; b [159]; b [226]; b [130]; []; b [172]; b [34]].
+
 Example guard_satisfiable :
-  cmd_guard CReadStringAsBytes (reader_mode 4 [b [50; 34; 195]; b [159; 226]; b [130; 172; 34]]) = true /\
-  fst (run_list [CReadStringAsBytes] (reader_mode 4 [b [50; 34; 195]; b [159; 226]; b [130; 172; 34]])) =
-  [(VBytes (Some (b [195; 159; 226; 130; 172])), None)].
-Proof. vm_compute. split; reflexivity. Qed.
+  cmd_guard CReadStringAsBytes (reader_mode 2 one_byte_reads) = true /\
+  fst (run_list [CReadStringAsBytes; CRemains] (reader_mode 2 one_byte_reads)) =
+  [(VBytes (Some (b [195; 159; 226; 130; 172])), None); (VBytes None, Some EEOF)] /\
+  fst (run_list [CReadStringAsBytes; CRemains] (bytes_mode (concat one_byte_reads))) =
+  [(VBytes (Some (b [195; 159; 226; 130; 172])), None); (VBytes None, Some EEOF)].
+Proof. vm_compute. repeat split; reflexivity. Qed.
 
 Example guarded_program :
-  guarded (Step CReadStringAsBytes (fun _ => Step CRemains (fun _ => Done)))
-          (reader_mode 4 [b [50; 34; 195]; b [159; 226]; b [130; 172; 34]]).
-Proof. cbn [guarded]. split; [vm_compute; reflexivity|]. vm_compute. auto. Qed.
+  s_guarded (Step CReadStringAsBytes (fun _ => Step CRemains (fun _ => Done)))
+            (concat one_byte_reads, None).
+Proof. cbn [s_guarded]. split; [vm_compute; reflexivity|]. vm_compute. auto. Qed.
 
-(* the short-refill situation exists (the witness of _refuted) *)
-Example short_refill_exists : str_why 1 (reader_mode 8 [[xe2]; [x82]; [xac]; [x22]]) = 2.
-Proof. vm_compute. reflexivity. Qed.
+(* a string ending exactly where the input ends: value, no error (u-tagged "€" split 2+1) *)
+Example end_of_input_no_eof :
+  fst (run_list [CStr 1] (reader_mode 8 [[xe2; x82]; [xac]])) = [(VBytes (Some euro), None)] /\
+  fst (run_list [CStr 1] (bytes_mode [x61])) = [(VBytes (Some [x61]), None)].
+Proof. vm_compute. split; reflexivity. Qed.
+
+(* a truncated character is an early end of input, in every fragmentation *)
+Example truncated_char_is_eof :
+  fst (run_list [CStr 1] (reader_mode 8 [[xe2]; [x82]])) = [(VBytes (Some [xe2; x82]), Some EEOF)] /\
+  fst (run_list [CStr 1] (bytes_mode [xe2; x82])) = [(VBytes (Some [xe2; x82]), Some EEOF)].
+Proof. vm_compute. split; reflexivity. Qed.
+
+(* historical: what readStringAsBytes did before the repair (the function text of the pinned
+   tree is kept as readStringAsBytes_pinned in Proofs/DecStreamProofs.v) *)
+Example before_fix_split_char_panicked :
+  readStringAsSafeBytes_pinned 1 (reader_mode 8 [[xe2]; [x82]; [xac]; [quote]]) = Panic PStrWindow /\
+  fst (run_list [CStr 1] (reader_mode 8 [[xe2]; [x82]; [xac]; [quote]])) = [(VBytes (Some euro), None)].
+Proof. exact pinned_split3_panicked. Qed.
+
+Example before_fix_spurious_eof :
+  (exists d1, readStringAsSafeBytes_pinned 1 (reader_mode 8 [[xe2; x82]; [xac]]) = Ok (Some euro, d1) /\
+              err d1 = Some EEOF) /\
+  fst (run_list [CStr 1] (reader_mode 8 [[xe2; x82]; [xac]])) = [(VBytes (Some euro), None)].
+Proof. exact pinned_end_eof. Qed.
